@@ -326,6 +326,43 @@ def r6_policy(chk, prog):
         chk.check(ok, 'R6', f.name, 'a filter type set twice is resolved by the duplicate policy, never stored twice',
                   f.loc())
     chk.require(n >= 4, 'only %d checkSetFilter instantiations' % n)
+    # "set twice" is judged per filter type: every setter looks for an existing filter under the type tag that the
+    # filter class it creates reports itself (IFilter( FilterTypes::X) in its constructor)
+
+    def enum_of(e):
+        for x in walk(e):
+            if x.get('k') == 'DeclRefExpr' and x.get('ref', {}).get('dk') == 'EnumConstant' and \
+                    'FilterTypes' in (x['ref'].get('q') or ''):
+                return x['ref']['q'].split('::')[-1]
+        return None
+    own_tag = {}
+    for f in prog.functions:
+        if f.d.get('ctor') and (f.classq or '').startswith('celma::log::filter::detail::LogFilter'):
+            for i in f.inits:
+                if isinstance(i.get('init'), dict) and ('IFilter' in (i.get('name') or '') or
+                                                       'IFilter' in (i['init'].get('callee') or '')):
+                    t = enum_of(i['init'])
+                    if t:
+                        own_tag[f.classq] = t
+    chk.require(len(own_tag) >= 4, 'filter classes with a type tag: %s' % sorted(own_tag))
+    m = 0
+    for f in prog.functions:
+        if f.classq != 'celma::log::filter::Filters' or f.body is None:
+            continue
+        for c in f.calls():
+            if not callee_is(c, 'Filters::checkSetFilter'):
+                continue
+            key = c.get('ckey') or c.get('callee') or ''
+            cls = [q for q in own_tag if q + ',' in key or q + '>' in key]
+            if len(cls) != 1:
+                raise AnalysisBroken('filter class of %s not identifiable' % key)
+            m += 1
+            tag = enum_of(call_args(c)[0])
+            chk.check(tag == own_tag[cls[0]], 'R6', f.name, 'an existing filter is looked up under the type of the '
+                      'filter that is being set (%s)' % own_tag[cls[0]], f.loc(c),
+                      'the setter passes FilterTypes::%s: a second %s filter is not recognised as a duplicate and an '
+                      'unrelated %s filter is treated as one' % (tag, own_tag[cls[0]], tag))
+    chk.require(m >= 4, 'filter setters found: %d' % m)
 
 
 def r7_policy_identity(chk, prog):
